@@ -112,6 +112,7 @@ async fn quiet(idle_ms: u64, max_ms: u64) {
 }
 
 pub fn run(v: &Value) -> Value {
+    risinglight::planner::verif_set_disabled_rules(vec![]);
     // "dir": run on this (existing or new) directory and leave it in place; default: a temp dir
     let dir = tempfile::tempdir().unwrap();
     let path = match v["dir"].as_str() {
@@ -239,6 +240,12 @@ pub fn run(v: &Value) -> Value {
                     Ok(Err(e)) => json!({"err": errstr(e)}),
                     Err(p) => json!({"panic": panic_msg(p)}),
                 });
+            } else if let Some(names) = step["disable_rules"].as_array() {
+                // leave these rewrite rules out of the optimiser from now on (empty list = all rules again)
+                let v: Vec<String> = names.iter().filter_map(|x| x.as_str().map(String::from)).collect();
+                let n = v.len();
+                risinglight::planner::verif_set_disabled_rules(v);
+                outs.push(json!({"disabled": n}));
             } else if let Some(q) = step["explain"].as_str() {
                 let Some(dbr) = db.as_ref() else {
                     outs.push(json!({"err": "database is closed"}));
